@@ -129,13 +129,55 @@ OLD_BLOCK = Enc(TagT(18, ListT([Bytes(), DictT(), NoneT(), Bytes()])))
 ENV_GHOSTS = [("D", Enc(DIGEST)), ("OLD", OLD_BLOCK), ("M", Bytes()), ("P17", Bytes()), ("PAY", Bytes())]
 ACTIONS = EnumT(FB, "SignatureAlreadyPresentActions")
 
-c = Contract(FS, "Signer.init_kms_backend", ["C04"])
-c.model_only = True
-c.modular_only_reason = "importlib-based plug-in loading; assumed to yield the shipped file-based KMS (ncs/basic_kms.py)"
-c.param("self", Obj(FS, "Signer"))
+# init_kms_backend: VERIFIED against the importlib model (pyvc/stubs_lib): the KMS module is loaded from exactly the given script path and executed once, its
+# suit_kms_factory is called once, what it returns becomes self.kms and is initialised once with the signer's context; a script without the factory is refused.
+# Assumed: the file at that path is the shipped ncs/basic_kms.py (then the factory yields a SuitKMS), and SuitKMS.init_kms derives the key directory from the context.
+def plugin_checks(factory_name, script_arg, object_class_file, object_class, init_call=None, context_of=None):
+    def setup(it, env):
+        import contracts.C00_common as C00
+        from pyvc.values import VObj
+
+        def result(it_, m, fname):
+            it_.assumptions_used.add(f"the script handed to the plug-in loader is the shipped one: its {factory_name}() returns a {object_class}")
+            return VObj(it_.get_class(object_class_file, object_class))
+        it.plugin_factory_result = result
+        if init_call:
+            it.call_site_summaries = {init_call: C00.recording_summary(init_call, ("ValueError",))}
+
+    def checks(it, ctx):
+        specs = [t for t in it.trace if t[0] == "import-spec"]
+        execs = [t for t in it.trace if t[0] == "import-exec"]
+        facts = [t for t in it.trace if t[0] == "plugin-factory"]
+        inits = [t for t in it.trace if t[0] == "call" and t[1] == init_call] if init_call else []
+        if ctx.outcome != "return":
+            return [("at_most_one_object_is_made", z3.BoolVal(len(facts) <= 1))]
+        ok = len(specs) == 1 and len(execs) == 1 and len(facts) == 1
+        goals = [("script_loaded_executed_and_its_factory_called_exactly_once", z3.BoolVal(ok))]
+        if ok:
+            goals.append(("loaded_from_the_given_script_path", it.stubs.path_term(it, specs[0][2]) == it.stubs.path_term(it, ctx.arg(script_arg))))
+            goals.append((f"the_factory_is_{factory_name}_of_that_module", z3.BoolVal(facts[0][1] == factory_name and facts[0][2] is execs[0][2])))
+        if init_call:
+            obj = ctx.arg("self").attrs.get("kms")
+            goals.append(("the_object_made_by_the_factory_is_installed_and_initialised_once", z3.BoolVal(len(inits) == 1 and inits[0][2]["self"] is obj
+                                                                                                      and getattr(obj, "cls", None) is it.get_class(object_class_file, object_class))))
+            if len(inits) == 1:
+                want = context_of(it, ctx)
+                got = inits[0][2]["context"]
+                goals.append(("initialised_with_the_context_of_this_request", z3.BoolVal(got is want) if not (hasattr(got, "e") and hasattr(want, "e")) else got.e == want.e))
+        return goals
+    return setup, checks
+
+
+c = Contract(FS, "Signer.init_kms_backend", ["C04", "C09"])
+c.param("self", Obj(FS, "Signer", _context=Str()))
 c.param("kms_script", Str())
+c.variants = [("plug-in", {})]
+_st, _ck = plugin_checks("suit_kms_factory", "kms_script", FK, "SuitKMS", init_call="SuitKMS.init_kms", context_of=lambda it, ctx: ctx.old("self").attrs["_context"])
+c.setup = _st
+c.check("loading", _ck)
 c.modifies(**{"self.kms": KMS})
 c.raises("ValueError")
+c.raises("FileNotFoundError")
 
 c = Contract(FS, "Signer.already_signed_action", ["C09", "C04"])
 for g, t in ENV_GHOSTS:
@@ -296,7 +338,7 @@ def replay_case(case):
 
 ASSUMPTIONS = [
     "cryptographic validity of ECDSA / Ed25519 / Ed448 / Ed25519ph signatures is the library's (assumed: verify(pub(k), sign(k, m), m)); 0 < r, s < 2**key_size",
-    "Signer.init_kms_backend / _import_signer (importlib plug-in loading) yield the shipped basic_kms.SuitKMS / sign_script.Signer",
+    "plug-in loading is verified against a model of importlib (given path, executed once, factory once); assumed: the scripts handed to it are the shipped ncs/sign_script.py / ncs/basic_kms.py",
     "cbor2.loads(ENC(x)) == x (law A1) and ENC(loads(ENC x)) == ENC x (A2) for the envelope parts named by the contract's ghosts",
 ]
 
